@@ -142,6 +142,55 @@ def tokloc_lemma(K, t, e):
     return body
 
 
+def tokloc_selftest(L):
+    """translator self-test: token_location of every token of the repository's lexer test inputs (plus CR/LF and
+    multi-byte samples), mirsym on concrete characters vs the real binary"""
+    from e2.driver import build_replayer, run_scenario
+    from e2.lemmas.c16 import harvest_lexer_tests
+    from e2.strmodel import SymText, Text, mk_text
+    from e2.lemma import Obligation
+    ok, msg = build_replayer()
+    if not ok:
+        raise Unsupported("replayer build failed: " + msg)
+    texts = harvest_lexer_tests() + ["a\r\nbb\n\tcc é d\rx", "ü\nüü z"]
+    n = tot = 0
+    cv = lambda t: z3.simplify(t).as_long()
+    fname, _c = mk_text("fname", 1)
+    S = L.ex.summ
+    L.ex.overrides[r"(^|::)token_filename$"] = lambda ex_, st, fr, c, a: S.option("ArcStr", fname)
+    lb0, L.ex.loop_bound = L.ex.loop_bound, 80
+    try:
+        for text in texts:
+            if not text:
+                continue
+            chars = [z3.BitVecVal(ord(c), 32) for c in text]
+            sym = SymText("tl", chars)
+            starts = [i for i in range(len(text) + 1) if i == len(text) or not text[i].isspace()][:12]
+            for t in starts:
+                tot += 1
+                a = len(text[:t].encode())
+                b = len(text[:min(t + 1, len(text))].encode())
+                rc, out = run_scenario(["tokloc %d %d %s" % (a, b, text.encode().hex())], False)
+                native = [l for l in out.splitlines() if l.startswith("TOKLOC ")]
+                tok = Text(sym, t, min(t + 1, len(text)), "substr")
+                sources = L.sym("&[(arcstr::ArcStr, arcstr::ArcStr)]", "sources")
+                outs = [o for o in L.run("lex::token_location", [sources, Ref(Box(tok, name="tok"))], [], {}) if L.feasible(o)]
+                mine = None
+                if len(outs) == 1 and outs[0].kind == "return" and outs[0].value.variant == "Some":
+                    loc = outs[0].value.payload.fields[0]
+                    wl = loc.fields[3]
+                    mine = "TOKLOC %d %d %d %d" % (cv(loc.fields[0].t), cv(loc.fields[1].t), cv(sym.offs[wl.lo]), cv(sym.offs[wl.hi]))
+                if not native or native[0] != mine:
+                    L.undecided.append((L.cur, "TRANSLATOR MISMATCH token_location(%r, char %d): native %s vs mirsym %s" % (text, t, native[:1], mine)))
+                else:
+                    n += 1
+    finally:
+        L.ex.overrides.pop(r"(^|::)token_filename$", None)
+        L.ex.loop_bound = lb0
+    L.selftest_traces = getattr(L, "selftest_traces", 0) + n
+    L.obligations.append(Obligation(L.cur, "translator self-test: %d of %d token locations agree between mirsym and the real binary" % (n, tot), "holds"))
+
+
 def run(L, tier, only=None):
     L.ex.path_budget = 8000
     ops = [o for o in OPCODES if o != "Resolve"]
@@ -154,6 +203,8 @@ def run(L, tier, only=None):
         L.lemma("C17 code_emit alignment", code_emit_lemma)
     if not only or "build" in only:
         L.lemma("C17 build error keeps run-time location", build_error_lemma)
+    if not only or "selftest" in only:
+        L.lemma("C17 translator self-test, token_location", tokloc_selftest)
     # line / column / quoted line: every text of K characters, every token start
     shapes = [(1, 0, 1), (2, 1, 2), (3, 2, 3), (4, 3, 4), (4, 2, 3), (4, 4, 4), (5, 4, 5)] if tier == "quick" else \
              [(K, t, min(t + 1, K)) for K in range(1, 7) for t in range(0, K + 1)]
